@@ -434,7 +434,8 @@ def _get_arg_type_wrapper(cls: Type[Any]) -> Callable[[Any], Any]:
             return cls(arg)
         except (ArgumentTypeError, TypeError, ValueError):
             raise  # handled properly by the parser and propagated to the client
-        except Exception as e:
+        except (Exception, SystemExit) as e:
+            # (a module that exits on import must not take the server down)
             text = (
                 f"{e.__class__.__name__} occurred in parser trying to "
                 f"convert type: {cls.__name__}({arg!r})"
